@@ -74,6 +74,9 @@ contract("NoiseSettings.get_default_noise_settings", params=dict(self=REF("Noise
          ensures=["result.t1 == self.default_t1 and result.t2 == self.default_t2 and result.assignment_error == self.default_assignment_error "
                   "and result.single_qubit_gate_error == self.default_single_qubit_gate_error"])
 
+# type invariants of the inputs: the annotated (non-Optional) dictionary fields hold dictionaries
+classinv("NoiseSettings", "self.individual_noise is not None")
+classinv("IndexedNoiseSettings", "self.qubit_index_lookup is not None", "self.noise_settings is not None")
 PARAMS_OF = ("ite(dict_has(self.individual_noise, qubit_id), 0, 1)")
 contract("NoiseSettings.get_noise_settings", params=dict(self=REF("NoiseSettings"), qubit_id=OPT(REF("IQubitID"))), returns=REF("QubitNoiseModelParameters"),
          pure=True, props=P, fresh_result=False,
